@@ -133,19 +133,7 @@ def run(chk, binary):
                 pieces = [o_[:-1] if o_.endswith(b"\n") else o_ for o_ in outs]
                 exp = b"".join(pieces) + b"\n"
                 if ob["out"] != exp:
-                    # known deviation: a line that extracted nothing is printed as a record (newline-terminated)
-                    # when other lines did extract fields; it matters only for a last line without terminator
-                    by_text = {}
-                    for u in ob["units"]:
-                        by_text.setdefault(u["text"], u["records"])
-                    adj = []
-                    for line, pc in zip(lines, pieces):
-                        r = by_text.get(line, [])
-                        sent = bool(r) and all(len(x) == 1 and x[0][0] == "0" for x in r)
-                        adj.append(pc + b"\n" if sent and not pc.endswith(b"\n") else pc)
-                    if b"".join(adj) + b"\n" == ob["out"]:
-                        chk.known("whole-buffer-line-among-records", "last line without terminator, nothing extracted from it but from other lines: a newline is added: " + " ".join(ob["argv"]))
-                        continue
+                    # (the deviation 'whole-buffer line among field records gets a newline' was repaired: format_linewise)
                     chk.violation("spec:--linewise differs from the concatenation of the lines run alone",
                                   {"argv": ob["argv"], "stdin": sc["stdin"], "linewise_stdout": ob["out"].decode(errors="replace"),
                                    "concatenation": exp.decode(errors="replace")})
